@@ -1,4 +1,5 @@
 import IronCalc.Formula.Partial
+import IronCalc.Formula.Image
 import IronCalc.Generated.ParenStringify
 /-
   C09 — Printing a formula and parsing it back preserves its meaning.
@@ -70,6 +71,20 @@ theorem C09_full_false : ¬ C09_full := by
   have : e = e' := by injection b with b; injection b
   injection this with _ h3 _
   cases h3
+
+/-- **`wf` is exactly the parser's image** (non-vacuity of the hypothesis above): whatever
+    the parser returns, at any level and with any fuel, is well-formed. -/
+theorem C09_parse_image_wf (iv : Nat → Bool) (f L : Nat) (ts : List Tok) (n : Node) (r : List Tok)
+    (h : P iv f L ts = some (n, r)) : n.wf iv = true :=
+  parse_image_wf iv f L ts n r h
+
+/-- **Typed, shown, re-read**: any token list the parser accepts yields a tree whose printed
+    form (with whatever table the code has) parses back to that same tree, provided the tree
+    avoids the table's failing entries — no well-formedness hypothesis is left. -/
+theorem C09_parse_print_parse (iv : Nat → Bool) (T : Table) (f : Nat) (ts : List Tok) (n : Node)
+    (r : List Tok) (h : P iv f 0 ts = some (n, r)) (hnb : n.noBad T = true) :
+    ∃ f0, ∀ f', f0 ≤ f' → P iv f' 0 (pr T n) = some (n, []) :=
+  roundtrip_partial iv T n (parse_image_wf iv f 0 ts n r h) hnb
 
 /-- extra parentheses are harmless: a parenthesised printed tree parses to the same tree -/
 theorem C09_paren_transparent (iv : Nat → Bool) (T : Table) (hT : TableOK T) (e : Node)
